@@ -741,6 +741,10 @@ func (fr *frame) runFrame() {
 			return // normal return
 		}
 		p := recover()
+		if u, ok := p.(unsupportedErr); ok && !strings.Contains(u.msg, " [in ") {
+			u.msg += " [in " + fr.fn.String() + fr.stack() + "]"
+			panic(u)
+		}
 		if isControl(p) {
 			panic(p)
 		}
@@ -873,4 +877,13 @@ func (fr *frame) stack() string {
 		n++
 	}
 	return sb.String()
+}
+
+// methodOf returns the exported method name of T, or nil when T has no such method.
+func (i *interpreter) methodOf(T types.Type, name string) *ssa.Function {
+	sel := i.prog.MethodSets.MethodSet(T).Lookup(nil, name)
+	if sel == nil {
+		return nil
+	}
+	return i.prog.MethodValue(sel)
 }
